@@ -1,4 +1,5 @@
 import MicroHttp.Props.C08
+import MicroHttp.Props.C08Live
 #print axioms MicroHttp.C08.respond_ok
 #print axioms MicroHttp.C08.read_yields_deliveries
 #print axioms MicroHttp.C08.respond_arms_out
@@ -6,3 +7,10 @@ import MicroHttp.Props.C08
 #print axioms MicroHttp.C08.flush_delivers
 #print axioms MicroHttp.C08.stale_out_repaired
 #print axioms MicroHttp.C08.interest_follows_work
+#print axioms MicroHttp.C08.no_spin
+#print axioms MicroHttp.C08.no_lost_wakeup
+#print axioms MicroHttp.C08.silent_means_idle
+#print axioms MicroHttp.C08.batch_admissible
+#print axioms MicroHttp.C08.poll_ok
+#print axioms MicroHttp.C08.poll_progress
+#print axioms MicroHttp.C08.lexLt_wf
